@@ -96,6 +96,52 @@ def gen(ns, trunc=False):
     return g
 
 
+def h_gzip_fd(I, job):
+    """GzipDecompressor (file based): gzdopen / gzoffset / gzread / gzclose_r as scripted stubs; what read() returns, what offset() reports, which failures surface"""
+    import C08
+    from C08 import make_script, read_log, K_GZDOPEN, K_CLOSE
+    K_GZREAD, K_GZCLOSER, K_GZOFFSET = 14, 15, 16
+    K = job['calls']; nreads = job['reads']; FS = job['file_size']; BUF = 1024 * 1024
+    rets, errs, log, nc, R, E = make_script(I, K)
+    for r_ in R: I.assume(z3.Or(r_ == z3.BitVecVal(-1, 64), z3.ULE(r_, FS), r_ == BUF))          # small results, or the full buffer
+    stage = I.new_obj(4, 'stage', 'heap'); lens = I.new_obj(8 * nreads, 'lens', 'heap'); marks = I.new_obj(4 * nreads, 'marks', 'heap'); offs = I.new_obj(8 * nreads, 'offs', 'heap')
+    rc = I.concretize(I.call('@verif_gzip_decompressor', [5, FS, nreads, rets, errs, K, log, 4 * K, nc, stage, lens, marks, offs]), 'rc')
+    if rc == 77: raise PathEnd()
+    I.observe('rc', rc)
+    n = I.concretize(I.load(nc, i32), 'ncalls'); calls = read_log(I, log, min(n, K)); kinds = [c[0] for c in calls]
+    k = 0; want = 0; done_reads = 0
+    def nxt(kind, what):
+        nonlocal k
+        if k >= len(calls) or calls[k][0] != kind: raise Finding('calls', 'expected %s as call %d, log is %s' % (what, k, kinds))
+        k += 1; return k - 1
+    j = nxt(K_GZDOPEN, 'gzdopen')
+    if I.decide(Sym(R[j] == 0, 1), 'gzdopen fails'):
+        want = 2; nxt(K_CLOSE, 'close of the descriptor after a failed gzdopen')
+    else:
+        for rd in range(nreads):
+            nxt(K_GZOFFSET, 'gzoffset before the read')
+            j = nxt(K_GZREAD, 'gzread')
+            ln = I.concretize(calls[j][2], 'gzread length')
+            if ln != BUF: raise Finding('read-size', 'gzread asked for %d bytes' % ln)
+            r = I.concretize(Sym(R[j], 64), 'gzread result')
+            if r == (1 << 64) - 1: want = 2; break                       # error (also: damaged / truncated stream) -> must surface
+            jo = nxt(K_GZOFFSET, 'gzoffset after the read')
+            got = I.concretize(I.load(lens + 8 * rd, i64), 'returned length')
+            if got != r: raise Finding('content', 'read() returns %d bytes, zlib delivered %d' % (got, r))
+            if r > 0:
+                mk = I.concretize(I.load(marks + 4 * rd, i32), 'marks'); tag = 0x40 + j
+                if mk != (tag | (tag << 8)): raise Finding('content', 'read() does not return the bytes zlib delivered (first / last byte marks %x, expected %x)' % (mk, tag | (tag << 8)))
+            I.obligation(I.term(I.load(offs + 8 * rd, i64), 64) == R[jo], 'offset', 'offset() after read %d is not the compressed position reported by zlib' % rd)
+            I.obligation(z3.ULE(I.term(I.load(offs + 8 * rd, i64), 64), FS), 'offset', 'reported offset exceeds the file size')
+            done_reads += 1
+        if not want:
+            j = nxt(K_GZCLOSER, 'gzclose_r')
+            if I.decide(Sym(R[j] != 0, 1), 'gzclose_r fails'): want = 2        # Z_BUF_ERROR: the file ended inside a stream
+    if k != len(calls): raise Finding('calls', 'unexpected extra library / OS calls: %s' % kinds)
+    if rc != want: raise Finding('lost-error' if want else 'spurious-error', 'GzipDecompressor outcome rc=%d, the library results require %d (0 ok, 2 gzip_error)' % (rc, want))
+    I.reach('end')
+
+
 def harnesses(tier):
     q = tier == 'quick'
     hs = [
@@ -110,6 +156,9 @@ def harnesses(tier):
     for kind, nm in ((0, 'bzip2'), (1, 'gzip')):
         hs.append(Harness('%s_buffer' % nm, 'decomp', h_buffer, jobs=[dict(kind=kind, streams=n, truncate=False) for n in (1, 2, 3)] + [dict(kind=kind, streams=2, truncate=True), dict(kind=kind, streams=2, truncate=False, big=1)], testgen=gen(1), step_cap=20_000_000,
                           desc='%s in-memory decompressor on 1-3 concatenated streams: everything is returned; truncated input -> error' % nm, bounds='<= 3 streams, payload 1..3 bytes, or 10239..10241 bytes (stream ends around the border of the 10240-byte output chunk); abstract model of the library in the symbolic run, the real library in the native replay'))
+    hs.append(Harness('gzip_file', 'io', h_gzip_fd, jobs=[dict(calls=3 * r + 2, reads=r, file_size=4) for r in ((1, 2) if q else (1, 2, 3))], native_ok=False,
+                      desc='GzipDecompressor (file based) over scripted zlib stubs (gzdopen, gzoffset, gzread, gzclose_r returning any value their contracts allow): read() asks for the whole 1 MiB buffer and returns exactly what gzread stored (length and first / last byte), a negative gzread (damaged or truncated stream) and a non-zero gzclose_r (Z_BUF_ERROR: the file ends inside a stream) surface as gzip_error, offset() is the position zlib reports and never exceeds the file size, a failed gzdopen closes the descriptor',
+                      bounds='<= %d reads; gzread results -1, 0..4 or the full buffer, file size 4; concatenated members and decompression itself are zlib\'s (gzread continues across members): not encoded' % (2 if q else 3)))
     # the library's own compressor side (shared with C08): what it writes must be a complete stream, also when nothing was written
     import C08
     bz = C08.bzip2_harness(tier); bz.name = 'bzip2_compressor_complete'
